@@ -158,6 +158,142 @@ theorem stepItem_complete (r : Run N K W) (a : Item N)
       · exact h3.2
       · rw [hp] at h3; cases h3
 
+/-! ### registration: an iteration that ends without error leaves its names in the registry -/
+
+def Reg (st : St N K W) (it : Item N) : Prop := it.s ∈ st.regS ∧ it.d ∈ st.regD
+
+/-- the registry only grows -/
+def RegLe (s s' : St N K W) : Prop := (∀ x ∈ s.regS, x ∈ s'.regS) ∧ (∀ x ∈ s.regD, x ∈ s'.regD)
+
+theorem RegLe.refl (s : St N K W) : RegLe s s := ⟨fun _ h => h, fun _ h => h⟩
+theorem RegLe.trans {a b c : St N K W} (h1 : RegLe a b) (h2 : RegLe b c) : RegLe a c :=
+  ⟨fun x h => h2.1 x (h1.1 x h), fun x h => h2.2 x (h1.2 x h)⟩
+
+theorem register_rle (s d : N) (st : St N K W) : RegLe st (register s d st) :=
+  ⟨fun _ h => mem_addNew_of_mem _ h, fun _ h => mem_addNew_of_mem _ h⟩
+
+theorem writeRec_rle (it : Item N) (p : Part) (c : Content) (st : St N K W) : RegLe st (writeRec cfg it p c st) :=
+  ⟨fun _ h => by rw [writeRec_regS]; exact mem_addNew_of_mem _ h,
+   fun _ h => by rw [writeRec_regD]; exact mem_addNew_of_mem _ h⟩
+
+theorem writeStrat_rle (it : Item N) (w : W) (st : St N K W) : RegLe st (writeStrat cfg it w st) :=
+  ⟨fun _ h => by rw [writeStrat_regS]; exact mem_addNew_of_mem _ h,
+   fun _ h => by rw [writeStrat_regD]; exact mem_addNew_of_mem _ h⟩
+
+theorem callEst_rle (c : Call N) (r : Run N K W) : RegLe r.st (callEst fail c r).st := by
+  rw [callEst_st]; exact RegLe.refl _
+
+theorem saveStrat_rle (it : Item N) (w : W) (r : Run N K W) : RegLe r.st (saveStrat cfg it w r).st := by
+  rcases saveStrat_st cfg it w r with e | ⟨_, e⟩ <;> rw [e]
+  · exact RegLe.refl _
+  · exact writeStrat_rle cfg it w _
+
+theorem savePred_rle (it : Item N) (p : Part) (c : Content) (r : Run N K W) :
+    RegLe r.st (savePred cfg it p c r).st := by
+  rcases savePred_st cfg it p c r with e | e <;> rw [e]
+  · exact RegLe.refl _
+  · exact writeRec_rle cfg it p c _
+
+theorem predictSave_rle (w : W) (it : Item N) (p : Part) (r : Run N K W) :
+    RegLe r.st (predictSave cfg L fail w it p r).st :=
+  RegLe.trans (callEst_rle fail _ r) (savePred_rle cfg it p _ _)
+
+theorem cond_rle {b : Bool} {f : Run N K W → Run N K W} (hf : ∀ r, RegLe r.st (f r).st) (r : Run N K W) :
+    RegLe r.st (cond b f r).st := by
+  unfold cond; split
+  · exact hf r
+  · exact RegLe.refl _
+
+theorem reg_mono {st st' : St N K W} (h : RegLe st st') {it : Item N} (hr : Reg st it) : Reg st' it :=
+  ⟨h.1 _ hr.1, h.2 _ hr.2⟩
+
+theorem savePred_reg (it : Item N) (p : Part) (c : Content) (r : Run N K W)
+    (h : (savePred cfg it p c r).err = none) : Reg (savePred cfg it p c r).st it := by
+  have hr := savePred_err_none cfg it p c r h
+  simp only [savePred, hr, Option.isSome_none, Bool.false_eq_true, if_false, Reg, writeRec_regS, writeRec_regD]
+  exact ⟨mem_addNew_self _ _, mem_addNew_self _ _⟩
+
+theorem saveStrat_reg (it : Item N) (w : W) (r : Run N K W)
+    (h : (saveStrat cfg it w r).err = none) : Reg (saveStrat cfg it w r).st it := by
+  have hr := saveStrat_err_none cfg it w r h
+  cases hd : cfg.disk
+  · simp [saveStrat, hr, hd] at h
+  · simp only [saveStrat, hr, Option.isSome_none, Bool.false_eq_true, if_false, hd, if_true, Reg,
+      writeStrat_regS, writeStrat_regD]
+    exact ⟨mem_addNew_self _ _, mem_addNew_self _ _⟩
+
+/-- with accepted options, an iteration that is not skipped saves at least one thing -/
+theorem some_save (o : Opts) (f : Flags) (ho : (o.owF && !o.saveF) = false) (h0 : skip o f = false)
+    (h1 : needStrat o f = false) (h2 : needTrain o f = false) (h3 : needTest o f = false) : False := by
+  obtain ⟨a, b, c, d⟩ := o
+  obtain ⟨x, y, z⟩ := f
+  revert ho h0 h1 h2 h3
+  cases a <;> cases b <;> cases c <;> cases d <;> cases x <;> cases y <;> cases z <;> decide
+
+/-- One iteration that ends without error leaves its strategy and dataset registered (skipped or not). -/
+theorem stepItem_registers (ho : (o.owF && !o.saveF) = false) (r : Run N K W) (a : Item N)
+    (h : (stepItem cfg L o fail r a).err = none) : Reg (stepItem cfg L o fail r a).st a := by
+  have herr : r.err = none := by
+    cases hr : r.err with
+    | none => rfl
+    | some e => rw [stepItem_err cfg L o fail r a (by simp [hr])] at h; rw [hr] at h; cases h
+  rw [stepItem_eq] at h ⊢
+  simp only [herr, Option.isSome_none, Bool.false_eq_true, if_false] at h ⊢
+  cases hsk : skip o (flagsOf cfg r.st a)
+  · simp only [hsk, Bool.false_eq_true, if_false] at h ⊢
+    generalize hr1 : callEst fail (Call.fit a) r = r1 at h ⊢
+    generalize hr2 : cond (needStrat o (flagsOf cfg r.st a)) (saveStrat cfg a (strategyFit L a)) r1 = r2 at h ⊢
+    generalize hr3 : cond (needTrain o (flagsOf cfg r.st a)) (predictSave cfg L fail (strategyFit L a) a .train) r2 = r3 at h ⊢
+    have e3 : r3.err = none := cond_err_none (fun r => predictSave_err_none cfg L fail _ a .test r) r3 h
+    have e2 : r2.err = none := by
+      rw [← hr3] at e3; exact cond_err_none (fun r => predictSave_err_none cfg L fail _ a .train r) r2 e3
+    have l23 : RegLe r2.st r3.st := by rw [← hr3]; exact cond_rle (fun r => predictSave_rle cfg L fail _ a .train r) r2
+    have l34 := cond_rle (b := needTest o (flagsOf cfg r.st a)) (fun r => predictSave_rle cfg L fail (strategyFit L a) a .test r) r3
+    cases hb3 : needTest o (flagsOf cfg r.st a)
+    · cases hb2 : needTrain o (flagsOf cfg r.st a)
+      · cases hb1 : needStrat o (flagsOf cfg r.st a)
+        · exact (some_save o _ ho hsk hb1 hb2 hb3).elim
+        · rw [hb3] at l34
+          apply reg_mono l34
+          apply reg_mono l23
+          rw [← hr2, hb1] at e2 ⊢
+          simp only [cond, if_true] at e2 ⊢
+          exact saveStrat_reg cfg a _ r1 e2
+      · rw [hb3] at l34
+        apply reg_mono l34
+        rw [← hr3, hb2] at e3 ⊢
+        simp only [cond, if_true] at e3 ⊢
+        exact savePred_reg cfg a .train _ _ e3
+    · rw [hb3] at h
+      simp only [cond, if_true] at h ⊢
+      exact savePred_reg cfg a .test _ _ h
+  · simp only [if_true]
+    exact ⟨mem_addNew_self _ _, mem_addNew_self _ _⟩
+
+theorem runItems_rle (items : List (Item N)) (r : Run N K W) : RegLe r.st (runItems cfg L o fail items r).st := by
+  apply runItems_st cfg L o fail (fun st => RegLe r.st st) items _ _ _ r (RegLe.refl _)
+  · intro a _ st hst; exact RegLe.trans hst (register_rle _ _ _)
+  · intro a _ _ _ st hst; exact RegLe.trans hst (writeStrat_rle cfg a _ _)
+  · intro a _ p _ st hst; exact RegLe.trans hst (writeRec_rle cfg a p _ _)
+
+/-- A loop that ends without error leaves every strategy and dataset of the work list registered. -/
+theorem runItems_registers (ho : (o.owF && !o.saveF) = false) (items : List (Item N)) (r : Run N K W)
+    (h : (runItems cfg L o fail items r).err = none) :
+    ∀ it ∈ items, Reg (runItems cfg L o fail items r).st it := by
+  induction items generalizing r with
+  | nil => intro it hit; cases hit
+  | cons a t ih =>
+    rw [runItems_cons] at h ⊢
+    intro it hit
+    rcases List.mem_cons.1 hit with e | hit
+    · subst e
+      have h1 : (stepItem cfg L o fail r it).err = none := by
+        cases hr : (stepItem cfg L o fail r it).err with
+        | none => rfl
+        | some e => rw [runItems_err cfg L o fail t _ (by simp [hr])] at h; rw [hr] at h; cases h
+      exact reg_mono (runItems_rle cfg L o fail t _) (stepItem_registers cfg L o fail ho r it h1)
+    · exact ih _ h it hit
+
 theorem completeItem_mono (st st' : St N K W) (hle : StLe st st') (it : Item N)
     (h : CompleteItem cfg o st it) : CompleteItem cfg o st' it :=
   ⟨hle.1 _ h.1, fun hp => hle.1 _ (h.2.1 hp), fun hs => hle.2 _ (h.2.2 hs)⟩
